@@ -204,15 +204,15 @@ EXTRA_TEXT = {
     'C08': " Long arrays at power-of-two lengths, overwritten files and re-entered writers are generated.",
     'C09': " Short non-final segments and re-entered writers are generated.",
     'C10': " Long sources (16-768 KiB channels) and reading the copy by path with its own index are included. Source version numbers, the omitted version argument and pathlib destinations are included.",
-    'C11': " Re-declaring segments without a new object list and lock-step chunk streams are included.",
+    'C11': " Re-declaring segments without a new object list and lock-step chunk streams are included. Digital lines of signed 8-bit and 16 / 32-bit ports are included.",
     'C12': " datetime64 values of the whole representable range go through a file as data and as properties.",
     'C13': " Arrays returned earlier must not be changed by later reads.",
     'C14': " Slices and windows are judged again after integer indices and must be arrays.",
     'C15': " A truncation differential compares cut big-endian / mixed files with the cut little-endian file.",
     'C16': " Channels re-written in the opposite order are read lazily from every offset.",
     'C17': " Sensor scales fed by other scales (input source 0 / 1) are included. Float32 voltages and repeated evaluation are included.",
-    'C18': " Thermocouple scales fed by other scales and arrays mixing valid with NaN / inf / out-of-range samples are included. Long arrays at power-of-two lengths and held results are included.",
-    'C20': " Unbuffered caller streams and the index file given as the path are included. The TdmsFile constructor's argument combinations are included. A large-chunk job (up to 2 MiB chunks) is included.",
+    'C18': " Thermocouple scales fed by other scales and arrays mixing valid with NaN / inf / out-of-range samples are included. Long arrays at power-of-two lengths and held results are included. A frozen per-bin error profile of the inverse functions serves as an additional regression oracle.",
+    'C20': " Unbuffered caller streams and the index file given as the path are included. The TdmsFile constructor's argument combinations are included. A large-chunk job (up to 2 MiB chunks) is included. Two files alive at once are included.",
 }
 
 
